@@ -589,6 +589,76 @@ def inline_new_locals(prog):
     return done
 
 
+# ---------------------------------------------------------------------------------------- P19 (index lists spliced into generators)
+class _RenameLoads(ast.NodeTransformer):
+    def __init__(self, mapping):
+        self.mapping = mapping
+
+    def visit_Name(self, n):
+        if n.id in self.mapping:
+            return ast.copy_location(ast.Name(id=self.mapping[n.id], ctx=n.ctx), n)
+        return n
+
+
+def splice_index_lists(prog):
+    """P19: `idx = [(a, b) for a in A for b in B]` followed by comprehensions `[.. for x, y in idx ..]` -> the generators of the
+    definition take the place of the generator over idx (variables renamed to x, y); a definition without remaining uses is dropped."""
+    done = []
+    for m in prog.modules.values():
+        for f in [n for n in ast.walk(m.tree) if isinstance(n, (ast.FunctionDef, ast.AsyncFunctionDef))]:
+            for _ in range(6):
+                changed = False
+                defs = {}
+                for lst in _stmt_lists(f):
+                    for st in lst:
+                        if isinstance(st, ast.Assign) and len(st.targets) == 1 and isinstance(st.targets[0], ast.Name) and isinstance(st.value, ast.ListComp) \
+                                and isinstance(st.value.elt, ast.Tuple) and all(isinstance(e, ast.Name) for e in st.value.elt.elts):
+                            nm = st.targets[0].id
+                            bound = [t.id for g in st.value.generators for t in ast.walk(g.target) if isinstance(t, ast.Name)]
+                            names = [e.id for e in st.value.elt.elts]
+                            stores = sum(1 for n in ast.walk(f) if isinstance(n, ast.Name) and n.id == nm and isinstance(n.ctx, ast.Store))
+                            if stores == 1 and set(names) <= set(bound) and len(set(names)) == len(names) and all(_is_pure(g.iter) and all(_is_pure(i) for i in g.ifs) for g in st.value.generators) \
+                                    and not any(isinstance(n, ast.Name) and n.id == nm for g in st.value.generators for n in ast.walk(g.iter)):
+                                defs[nm] = (st, lst, names, bound)
+                if not defs:
+                    break
+                for comp in [n for n in ast.walk(f) if isinstance(n, (ast.ListComp, ast.GeneratorExp, ast.SetComp, ast.DictComp))]:
+                    for gi, g in enumerate(comp.generators):
+                        if isinstance(g.iter, ast.Name) and g.iter.id in defs and isinstance(g.target, ast.Tuple) and all(isinstance(e, ast.Name) for e in g.target.elts):
+                            st, lst, names, bound = defs[g.iter.id]
+                            if comp is st.value or len(g.target.elts) != len(names):
+                                continue
+                            mapping = {old_: new_.id for old_, new_ in zip(names, g.target.elts)}
+                            # variables of the definition that are not part of the tuple keep a private name
+                            for b in bound:
+                                if b not in mapping:
+                                    mapping[b] = "%s__%s" % (b, g.iter.id)
+                            new_gens = []
+                            for dg in st.value.generators:
+                                ng = copy.deepcopy(dg)
+                                r = _RenameLoads(mapping)
+                                ng.target = r.visit(ng.target)
+                                ng.iter = r.visit(ng.iter)
+                                ng.ifs = [r.visit(i) for i in ng.ifs]
+                                new_gens.append(ng)
+                            new_gens[-1].ifs = new_gens[-1].ifs + g.ifs
+                            comp.generators[gi:gi + 1] = new_gens
+                            changed = True
+                            done.append("%s: %s" % (f.name, g.iter.id))
+                            break
+                # drop definitions that are no longer read
+                for nm, (st, lst, names, bound) in defs.items():
+                    if not any(isinstance(n, ast.Name) and n.id == nm and isinstance(n.ctx, ast.Load) for n in ast.walk(f)):
+                        if st in lst:
+                            lst.remove(st)
+                            if not lst:
+                                lst.append(ast.Pass())
+                            changed = True
+                if not changed:
+                    break
+    return done
+
+
 # ---------------------------------------------------------------------------------------- P1 / P2 / P3
 def _is_list_literal(v):
     return isinstance(v, ast.List) and not any(isinstance(e, ast.Starred) for e in v.elts)
